@@ -6,23 +6,6 @@ A violation is attributed only if the *syntactic precondition* of the known defe
 from rtverif import lang
 
 
-def c03_attribution(f, data, n, i, observed, rel=0.0):
-    """D-past-over-future: stateful past operator above an operand with look-ahead; the pastified
-    operand delivers warm-up garbage for its first steps.  Attributed only if the precondition
-    holds AND the monitor returned exactly what the (warm-up ignoring) construction predicts."""
-    from rtverif import pastmodel, ref_discrete as ref
-    if not pastmodel.past_over_future(f):
-        return None
-    try:
-        pred = ref.evaluate(pastmodel.pastified(f), data, n)[i]
-    except Exception:
-        return None
-    if pred != pred or ref.same(observed, pred, rel):
-        # (a NaN-tainted prediction leaves the defect's outcome undetermined: min/max with NaN)
-        return 'D-past-over-future'
-    return None
-
-
 def normalise_signals(sig):
     """Restrict every signal to the common domain [start, inf) and shift time so that start = 0."""
     from rtverif import ref_dense
